@@ -421,7 +421,7 @@ SVC = [
     # attendance passes: pairs in both tiers, triples (minutes each) in the thorough tier
     (("attend", "unsubscribe_S1"), ("quick", "thorough"), False),
     (("attend", "subscribe_N1"), ("quick", "thorough"), True),
-    (("attend", "subscribe_N1", "unsubscribe_S2"), ("thorough",), False),
+    (("attend", "subscribe_N1", "unsubscribe_S2"), ("thorough",), True),
     (("attend", "deregister_consumer_2"), ("quick", "thorough"), False),
     (("attend", "if4_deregister_consumer_2"), ("quick", "thorough"), False),
     (("attend", "attend'"), ("quick", "thorough"), True),
@@ -437,7 +437,7 @@ def _universe(combo, small):
     """subscriptions of the VC: those its operations name, plus - unless `small` - both possible earlier subscriptions"""
     named = [t for t in SUBS if any(nm.rstrip("'").endswith("_" + t) for nm in combo)]
     if small:
-        if not any(t.startswith("S") for t in named):
+        if not any(t.startswith("S") for t in named) and len(named) < 2:
             named = ["S1"] + named
         return [t for t in SUBS if t in named]
     return [t for t in SUBS if t in named or t.startswith("S")]
